@@ -18,7 +18,18 @@ void __wrap_free(void* p) { if (p && p == watch) freed++; __real_free(p); }
 struct Odd { char b[12]; }; struct Tiny { char b[1]; };
 var Odd = Cello(Odd); var Tiny = Cello(Tiny);
 
+/* a type whose Alloc instance supplies only half of the pair (its own alloc, no dealloc - like the library's own Type) and
+   which has a destructor: a refused release must not have run it */
+struct Half { int64_t v; int64_t canary; };
+static long long half_fin;
+extern var Half;
+static void Half_New(var self, var args) { struct Half* h = self; h->v = 5; h->canary = 0x68616c66; }
+static void Half_Del(var self) { struct Half* h = self; h->canary = 0; half_fin++; }
+static var Half_Alloc2(void) { return header_init(calloc(1, sizeof(struct Header) + sizeof(struct Half)), Half, AllocHeap); }
+var Half = Cello(Half, Instance(New, Half_New, Half_Del), Instance(Alloc, Half_Alloc2, NULL));
+
 static var T_of(const char* s) {
+  if (!strcmp(s, "Half")) return Half;
   if (!strcmp(s, "Odd")) return Odd;
   if (!strcmp(s, "Tiny")) return Tiny;
   return !strcmp(s, "Int") ? Int : !strcmp(s, "Float") ? Float : !strcmp(s, "String") ? String :
@@ -88,19 +99,20 @@ int main(int argc, char** argv) {
     volatile var keep1 = NULL, keep2 = NULL;      /* containers / views the object lives in (kept reachable) */
     hc_exc = "";
     /* stack objects and stack views live in this block (the loop body): compound literals die with their block */
+    var sH = $(Half, 5, 0x68616c66);
     var sI = $I(7); var sF = $F(1.5); var sS = $S("abc"); var sT = tuple($I(1), $I(2));
     volatile var baseA = new(Array, Int, $I(1), $I(2), $I(3));
     var vR = range($I(3)); var vS = slice(baseA, $I(2)); var vZ = zip(baseA, range($I(2))); var vM = map(baseA, $(Function, mapf));
     try {
       /* values used to fill containers: the element type decides */
-      #define MK(T_) ((T_) == Odd ? (var)$(Odd, "elevenchars") : (T_) == Tiny ? (var)$(Tiny, "x") : (T_) == Int ? (var)$I(7) : (T_) == Float ? (var)$F(1.5) : (T_) == String ? (var)$S("abc") : (T_) == Probe ? (var)$(Probe, 0, 0, NULL, 0) : (var)$I(7))
+      #define MK(T_) ((T_) == Half ? (var)$(Half, 5, 0x68616c66) : (T_) == Odd ? (var)$(Odd, "elevenchars") : (T_) == Tiny ? (var)$(Tiny, "x") : (T_) == Int ? (var)$I(7) : (T_) == Float ? (var)$F(1.5) : (T_) == String ? (var)$S("abc") : (T_) == Probe ? (var)$(Probe, 0, 0, NULL, 0) : (var)$I(7))
       var ET = (T == Tuple || T == Array) ? Int : T;          /* containers of containers are not needed here */
       if (!strcmp(how, "new"))        { o = (T == Tuple) ? (var)new(Tuple, $I(1), $I(2), $I(3), $I(4)) : (T == Array) ? (var)new(Array, Int, $I(1)) : (T == String) ? (var)new(String, $S("abc")) : (T == Probe) ? (var)new(Probe, $I(5)) : new_with(T, tuple(MK(T))); reg = 1; }
       else if (!strcmp(how, "new_raw")) { o = (T == Tuple) ? (var)new_raw(Tuple, $I(1), $I(2), $I(3), $I(4)) : (T == Array) ? (var)new_raw(Array, Int, $I(1)) : (T == String) ? (var)new_raw(String, $S("abc")) : (T == Probe) ? (var)new_raw(Probe, $I(5)) : new_raw_with(T, tuple(MK(T))); }
       else if (!strcmp(how, "new_root")) { o = (T == Tuple) ? (var)new_root(Tuple, $I(1), $I(2), $I(3), $I(4)) : (T == Array) ? (var)new_root(Array, Int, $I(1)) : (T == String) ? (var)new_root(String, $S("abc")) : (T == Probe) ? (var)new_root(Probe, $I(5)) : new_root_with(T, tuple(MK(T))); reg = 1; }
       else if (!strcmp(how, "alloc") || !strcmp(how, "alloc_raw") || !strcmp(how, "alloc_root")) {
         o = !strcmp(how, "alloc") ? alloc(T) : !strcmp(how, "alloc_raw") ? alloc_raw(T) : alloc_root(T); reg = strcmp(how, "alloc_raw") ? 1 : 0; if (T == String) ((struct String*)o)->val = calloc(1, 1); if (T == Tuple) { ((struct Tuple*)o)->items = malloc(sizeof(var)); ((struct Tuple*)o)->items[0] = Terminal; } if (T == Probe) probe_issue(o, 5); }
-      else if (!strcmp(how, "stack"))  { o = (T == Float) ? sF : (T == String) ? sS : (T == Tuple) ? sT : sI; if (T != Int && T != Float && T != String && T != Tuple) wantT = Int; wantcls = "stack"; }
+      else if (!strcmp(how, "stack"))  { o = (T == Half) ? sH : (T == Float) ? sF : (T == String) ? sS : (T == Tuple) ? sT : sI; if (T != Int && T != Float && T != String && T != Tuple && T != Half) wantT = Int; wantcls = "stack"; }
       else if (!strcmp(how, "copy"))   { var src = (T == String) ? sS : (T == Float) ? sF : sI; o = copy(src); wantT = type_of(src); reg = 1; }
       else if (!strcmp(how, "static")) { o = T; wantT = Type; wantcls = "static"; }
       else if (!strcmp(how, "aelem"))  { keep1 = new(Array, ET, MK(ET), MK(ET)); o = get(keep1, $I(1)); wantT = ET; wantcls = "data"; }
@@ -146,7 +158,7 @@ int main(int argc, char** argv) {
       unsigned char before[256]; memcpy(before, o, n);
       char sbefore[64] = ""; if (tt == String && ((struct String*)o)->val) strncpy(sbefore, c_str(o), 63);
       long lbefore = (tt == Tuple || tt == String || tt == Array) ? (long)len(o) : 0;
-      long long fin0 = led_retired_total;
+      long long fin0 = led_retired_total + half_fin;
       watch = (char*)o - sizeof(struct Header); freed = 0;
       if      (!strcmp(op, "del"))         HC_TRY(del(o));
       else if (!strcmp(op, "del_raw"))     HC_TRY(del_raw(o));
@@ -174,7 +186,7 @@ int main(int argc, char** argv) {
         if (tt == Tuple || tt == Array) same = same && lbefore == (long)len(o);
       }
       ev_begin("dispose"); ev_str("how", how); ev_str("what", op); ev_str("exc", hc_exc); ev_str("msg", hc_msg);
-      ev_int("freed", wasfreed); ev_int("same", same); ev_int("fin", led_retired_total - fin0); ev_int("line", cur_line); ev_end();
+      ev_int("freed", wasfreed); ev_int("same", same); ev_int("fin", led_retired_total + half_fin - fin0); ev_int("line", cur_line); ev_end();
       if (wasfreed) break;
     }
     keep1 = NULL; keep2 = NULL;
